@@ -280,7 +280,7 @@ pub fn deliver(sim: &mut Sim, d: &Delivery) -> u64 {
     for f in d.faults {
         if let Some(rest) = f.strip_prefix("scale:") {
             if let Some((fam, k)) = rest.rsplit_once(':') {
-                sim.scale_obs.push((fam.to_string(), k.parse().unwrap_or(0), a.bytes, a.calls, d.ev));
+                sim.scale_obs.push((fam.to_string(), k.parse().unwrap_or(0), a_net, a.calls, d.ev));
             }
         }
     }
